@@ -120,12 +120,12 @@ theorem clean_deliverAB (g : GS) (ha : AInv g) (hc : Clean g) : Clean (gnext g .
     constructor
     · show ∀ t ∈ (step g.s .deliverAB).a.client.tasks, _
       rw [e]
-      simp only [Node.step, Client.sendingChanged]
-      split <;> exact hc.no_get
+      simp only [Node.step]
+      rw [(ClientSending.sendingChanged_fields _ _ _ _).1]; exact hc.no_get
     · show ∀ k, k ∈ (step g.s .deliverAB).a.client.wantlist.cids → _
       rw [e, hh]
-      simp only [Node.step, Client.sendingChanged]
-      split <;> exact hc.fresh
+      simp only [Node.step]
+      rw [(ClientSending.sendingChanged_fields _ _ _ _).2.1]; exact hc.fresh
 
 theorem clean_deliverBA (g : GS) (ha : AInv g) (hc : Clean g) (ha' : AInv (gnext g .deliverBA)) :
     Clean (gnext g .deliverBA) := by
@@ -170,15 +170,15 @@ theorem clean_deliverBA (g : GS) (ha : AInv g) (hc : Clean g) (ha' : AInv (gnext
         · exact hc.fresh k this.1 h
         · exact this.2 h
 
-theorem sendingChanged_fields (c : Client.State) (p : Nat) (st : Sending) :
-    (Client.sendingChanged c p st).tasks = c.tasks ∧ (Client.sendingChanged c p st).wantlist = c.wantlist := by
-  unfold Client.sendingChanged; split <;> exact ⟨rfl, rfl⟩
+theorem sendingChanged_fields (c : Client.State) (p src : Nat) (st : Sending) :
+    (Client.sendingChanged c p src st).tasks = c.tasks ∧ (Client.sendingChanged c p src st).wantlist = c.wantlist :=
+  ⟨(ClientSending.sendingChanged_fields c p src st).1, (ClientSending.sendingChanged_fields c p src st).2.1⟩
 
 theorem drainedA_tasks (a : Node.State) :
     (drainedA a).client.tasks = (Client.drain a.client a.now a.seq (Node.prefOf [])).1.tasks := by
   simp only [drainedA]
   split
-  · exact (sendingChanged_fields _ _ _).1
+  · exact (sendingChanged_fields _ _ _ _).1
   · rfl
 
 theorem clean_drainA (g : GS) (ha : AInv g) (hc : Clean g) (ha' : AInv (gnext g .drainA)) :
